@@ -14,8 +14,7 @@ RULE = ("histories: a generated machine (1-2 flippers over all wiring variants s
         "EVERY op the platform rule table, device enabled flags, all coil states, PSU handlers, EOS-manager flags, "
         "pending re-enable delays and the recorded set_*_rule/clear_hw_rule calls are compared with the model. "
         "non-trivial = at least one op that re-enables/re-disables an already enabled/disabled device or a timeout "
-        "trip or a repulse or a lifecycle event while a flipper coil is software-held; distinct by case hash.  "
-        "game: real games (FakeGameRig) with tilt / service mode / drain, oracle only")
+        "trip or a lifecycle-off event while some coil is energised; distinct by case hash")
 TRUSTED_BASE = [
     "Coq 8.16.1 kernel (coqc), vm_compute for evaluating the model in the correspondence run; no native_compute",
     "axioms: none (every Print Assumptions is 'Closed under the global context')",
@@ -178,7 +177,7 @@ def gen_config(rng):
 def gen_ops(rng, devs, tier):
     flips = [i for i, d in enumerate(devs) if d["kind"] == "f"]
     autos = [i for i, d in enumerate(devs) if d["kind"] != "f"]
-    sws = sorted(set(w for d in devs for w in (d.get("sw"), d.get("eos")) if w is not None)) or [1]
+    sws = sorted(set(w for d in devs for w in (d.get("sw"), d.get("eos")) if w is not None))
     evs = sorted(set(EVENT_POOL + [e for d in devs for k in ("en_ev", "dis_ev") for e in (d[k] or [])]))
     n = rng.randint(8, 45 if tier == "quick" else 70)
     ops = []
@@ -209,9 +208,9 @@ def gen_ops(rng, devs, tier):
         elif r < 0.62:
             ops.append(["Ev", rng.choice(evs if rng.random() < 0.6 else ["ball_started", "ball_will_end",
                                                                         "service_mode_entered"])])
-        elif r < 0.70:
+        elif r < 0.70 and sws:
             ops.append(["SwOn", rng.choice(sws)])
-        elif r < 0.78:
+        elif r < 0.78 and sws:
             ops.append(["SwOff", rng.choice(sws)])
         elif r < 0.86 and autos:
             # burst of hits on an autofire switch at one instant: trips the timeout protection
@@ -611,6 +610,9 @@ def oracle_hist(case, out):
         if op[0] == "Ev":
             for i, d in enumerate(devs):
                 if op[1] in dis_events(d) and op[1] not in en_events(d):
+                    quiet[i] = n
+                # the property text fixes the lifecycle events for devices that keep the default wiring
+                if op[1] in LIFECYCLE_OFF and d["dis_ev"] is None and d["en_ev"] is None:
                     quiet[i] = n
         # anything that may legitimately enable again ends the quiet period
         for i, d in enumerate(devs):
